@@ -16,7 +16,10 @@ def _replay_chunk(args):
     calls = 0
     for case in chunk:
         try:
-            res = fn(case)
+            with common.watchdog():
+                res = fn(case)
+        except common.CallTimeout as e:
+            res = [('timeout', 'the replay of one case did not finish (%s): a library call does not return' % e)]
         except Exception as e:       # replay functions catch library exceptions themselves; this is a harness bug
             import traceback
             res = [('harness-error:' + type(e).__name__, traceback.format_exc()[-600:])]
